@@ -31,6 +31,12 @@ func main() {
 	case "C01", "C17", "C02":
 		enumSer(R, prop, *fBudget, *fValdev, *fEntries, true)
 		enumGenerated(R, prop)
+	case "C18":
+		enumC18(R, *fBudget)
+	case "C03":
+		enumC03(R, *fBases)
+	case "C11":
+		enumC11(R, *fLen, *fTokens)
 	default:
 		fmt.Fprintln(os.Stderr, "unknown property", prop)
 		os.Exit(3)
@@ -47,5 +53,11 @@ func replay(R *vlib.Out, prop string) {
 			vlib.Fatal("replay payload has no template")
 		}
 		checkSer(R, prop, rp.T, rp.Hp, rp.Bp, rp.Tp)
+	case "C18":
+		replayC18(R)
+	case "C03":
+		replayC03(R)
+	case "C11":
+		replayC11(R)
 	}
 }
